@@ -81,6 +81,23 @@ CHECKS = {
     design_ref="DESIGN.md section 4 / C14",
     technique="Coq proof of step invariants + induction over pivot sequences + per-step correspondence of histories + invariant/optimality/ray oracles on the implementation",
     note=TB),
+ "C15": dict(
+    category="translation_validation",
+    text="rooc's own labelling logic (raw microlp status/error -> returned label or error) is modelled as a decision table in Coq with the theorem wrap_never_mislabels "
+         "(optimal only if proven within the gap, feasible for an incumbent, an error when interrupted before any feasible point or when options are invalid) and tied to the code by comparing "
+         "every observed (raw status via guarded hook, returned label) pair over models x 40 (time limit, MIP gap) settings incl. 0, 1us, negative/NaN/infinite gaps. Every returned point goes through the "
+         "Coq-verified feasibility checker; an Optimal label is compared with the optimum certified by exhaustive enumeration inside Coq. The genuine defect F10 (status ignored) was repaired.",
+    design_ref="DESIGN.md section 4 / C15",
+    technique="Coq decision-table model + theorem, tied by (raw status, label) correspondence through a hook; per-output validation with verified checkers",
+    note="Trusted: Coq kernel; hook milp_verif_hooks; printers and Python comparison. Which raw status a given wall-clock limit produces is runtime behaviour the model cannot exhibit (only 0 and generous limits are deterministic)."),
+ "C20": dict(
+    category="translation_validation",
+    text="sensitivity_cert_sound (Coq, axiom-free): if one dual vector certifies the optimum for right-hand side b and for b +- delta in row i, the optimal value moves by exactly y_i*delta, "
+         "so y_i is the shadow price in the user's objective sense. z3 (untrusted) produces the two-sided certificates; for every named row that has one, the shadow price reported by "
+         "solve_real_lp_problem_clarabel is compared with the certified slope (min and max, <=, >=, =); inactive rows must report 0, unnamed rows none, named rows all.",
+    design_ref="DESIGN.md section 4 / C20",
+    technique="Coq-verified sensitivity certificate + untrusted exact solver + per-model comparison of reported duals",
+    note="Trusted: Coq kernel + vm_compute; Cert/Bridge.v translation; printers; Python comparison (1e-5). Only Clarabel reports duals among built-in solvers."),
  "C10": dict(
     category="proof",
     text="Coq theorems for all expressions and all real assignments: Exp::simplify (typed semantics) and Exp::flatten preserve the value; "
